@@ -321,7 +321,22 @@ class ExprGen:
     # ---- aggregates ----
     def aggregate(self, fam, depth, ctx_extra=None):
         d = self.draw
-        inner = lambda f: ExprGen(self.draw, self.s, self.cfg).gen(f, max(depth - 1, 0))  # noqa: E731
+        def inner(f):
+            # the argument of an aggregate / window function refers to a column (DESIGN §4.14)
+            e = ExprGen(self.draw, self.s, self.cfg).gen(f, max(depth - 1, 0))
+            if not any(nd[0] == "col" for nd in walk_expr(e)):
+                lf = self.leaf(f)
+                if lf[0] == "col":
+                    return lf
+                for f2 in ("int", "float", "str", "bool", "date", "datetime"):
+                    if f2 == f:
+                        continue
+                return None
+            return e
+
+        if not self.s.by_fam.get(fam) and fam not in ("int",):
+            # no column of this family to aggregate: count rows / sum a boolean instead
+            pass
         if fam == "int":
             kind = self.pick(["sum", "sumb", "count", "count_star", "min", "max"])
         elif fam == "float":
@@ -335,18 +350,37 @@ class ExprGen:
             e = ["fn", "count_star", [], ctx]
             return e
         if kind == "sumb":
-            e = ["fn", "sum", [inner("bool")], ctx]
+            arg, op = inner("bool"), "sum"
         elif kind == "count":
             f2 = self.pick(self.s.fams_available() or ["int"])
-            e = ["fn", "count", [inner(f2)], ctx]
+            arg, op = inner(f2), "count"
         elif kind == "meani":
-            e = ["fn", "mean", [inner("int")], ctx]
+            arg, op = inner("int"), "mean"
         else:
-            e = ["fn", kind, [inner(fam)], ctx]
+            arg, op = inner(fam), kind
+        if arg is None:
+            return self._agg_fallback(fam, ctx)
+        e = ["fn", op, [arg], ctx]
         if self.cfg.filter_kw and self.chance(3):
             nf = d(st.integers(1, 2))
-            ctx["filter"] = [inner("bool") for _ in range(nf)]
+            fs = [ExprGen(self.draw, self.s, self.cfg).gen("bool", max(depth - 1, 0)) for _ in range(nf)]
+            ctx["filter"] = fs
         return e
+
+    def _agg_fallback(self, fam, ctx):
+        """An aggregate of the wanted family when the scope has no column to feed it."""
+        cs = ["fn", "count_star", [], dict(ctx)]
+        if fam == "int":
+            return cs
+        if fam == "float":
+            return ["cast", cs, "float64"]
+        if fam == "bool":
+            return ["fn", "ge", [cs, ["lit", 0]], {}]
+        if fam == "str":
+            return ["cast", cs, "str"]
+        # date / datetime: aggregate any column's null-ness into a constant choice
+        lit = lit_of(self.draw, fam, self.cfg, typed_ok=False)
+        return ["case", [[["fn", "ge", [cs, ["lit", 0]], {}], lit]], None]
 
     # ---- windows ----
     def arrange_keys(self, unique):
@@ -368,7 +402,7 @@ class ExprGen:
         if not keys:
             ref, _, _ = self.pick(self.s.vis_refs)
             keys.append([["col", ref], False, "last", 0])
-        return keys
+        return dedupe_keys(self.s, keys)
 
     def window(self, fam, depth):
         d = self.draw
@@ -377,7 +411,12 @@ class ExprGen:
         if self.chance(4) and s.vis_refs:
             k = d(st.integers(1, 2))
             ctx["partition_by"] = [["col", self.pick(s.vis_refs)[0]] for _ in range(k)]
-        inner = lambda f: ExprGen(self.draw, s, self.cfg).gen(f, max(depth - 1, 0))  # noqa: E731
+        def inner(f):
+            e = ExprGen(self.draw, s, self.cfg).gen(f, max(depth - 1, 0))
+            if not any(nd[0] == "col" for nd in walk_expr(e)):
+                return self.leaf(f)
+            return e
+
         can_unique = bool(s.id_refs)
         kinds = ["aggwin", "aggwin"]
         if fam == "int":
@@ -397,11 +436,15 @@ class ExprGen:
             ctx["arrange"] = self.arrange_keys(True)
         if kind == "row_number":
             return ["fn", "row_number", [], ctx]
+        if kind in ("cum_sum", "shift"):
+            a0 = inner(fam)
+            if a0[0] == "lit":
+                return None
         if kind == "cum_sum":
-            return ["fn", "cum_sum", [inner(fam)], ctx]
+            return ["fn", "cum_sum", [a0], ctx]
         if kind == "shift":
             n = d(st.integers(-2, 3))
-            args = [inner(fam), ["lit", n]]
+            args = [a0, ["lit", n]]
             if self.chance(4):
                 args.append(lit_of(d, fam, self.cfg, typed_ok=False))
             return ["fn", "shift", args, ctx]
@@ -422,3 +465,22 @@ def safe_value_expr(env, t, e, fallback, *, no_undef=False, mode="mutate"):
     if no_undef and any(v is UNDEF for v in vec.vals):
         return fallback, None
     return e, vec
+
+
+def dedupe_keys(scope: Scope, keys):
+    """The same column twice in one key list is dropped (Polars' over(order_by=) refuses it)."""
+    cid_of = {}
+    for ref, c in scope.capt:
+        cid_of[(ref["v"], ref["n"])] = c
+    vis = scope.t.vis()
+    seen, out = set(), []
+    for k in keys:
+        e = k[0]
+        if e[0] == "col":
+            r = e[1]
+            cid = vis.get(r["c"]) if "c" in r else cid_of.get((r["v"], r["n"]))
+            if cid in seen:
+                continue
+            seen.add(cid)
+        out.append(k)
+    return out
